@@ -427,6 +427,20 @@ where
         #[cfg(feature = "log")]
         log::debug!("{}", control);
         match control {
+            // The close has been sent already: `try_close()` repeats the request on
+            // every call, and a handle may be dropped after a `close()` that was
+            // abandoned. There is nothing left to do but to wait for the peer's close;
+            // treating the repeated request as an illegal state would turn a clean
+            // close exchange into an error.
+            ConnectionControl::Close(_)
+                if matches!(
+                    self.connection.local_state(),
+                    ConnectionState::CloseSent
+                        | ConnectionState::Discarding
+                        | ConnectionState::ClosePipe
+                        | ConnectionState::OpenClosePipe
+                        | ConnectionState::End
+                ) => {}
             ConnectionControl::Close(error) => {
                 // Record a locally initiated close with an error before the
                 // channels close, so sessions and links observe the local
